@@ -96,6 +96,9 @@ def judge(comp, res):
     dom = "intercept" if parts["intercept"] >= parts["penalty"] else "penalty"
     where = dict(solver=s, datafit=(comp["datafit"] or {}).get("name"), penalty=comp["penalty"]["name"],
                  zero_outer_budget=(kw.get(R.OUTER[s]) == 0), dominated_by=dom, within_4x=bool(viol <= 4 * bound))
+    gi = comp["penalty"].get("grp_indices")
+    if gi is not None:
+        where["contiguous_groups"] = list(gi) == list(range(len(gi)))
     return (f"solver:{s}.stop_crit", "certificate_invalid", dict(stop_crit=sc, recomputed=viol, parts=parts), f"<= {bound}", where)
 
 
